@@ -4,12 +4,14 @@ import time
 from vlib.common import finish
 from vlib.bounded import Bounded
 from harness import c06 as driver
+from checks._proof import proof_subobligations
 
 PROP = 'C06'
 
 
 def run():
     t0 = time.time()
+    pv, pu, pe, ppart, passumed = proof_subobligations(PROP, ['contracts.c06_order'], ['ak.ghist'])
     b = Bounded(PROP, 'harness.c06')
     driver.run(b)
     fam = b.notes.get('families', {})
@@ -31,7 +33,13 @@ def run():
              "from a head. Families: " + ', '.join(f"{k}={v}" for k, v in fam.items()),
         exhaustive=False,
         extra={'exhaustive_families': [k for k in fam if k.startswith('small-')]})
-    return finish(PROP, 'exploration', b.violations(), [], b.errors, cov,
+    cov.update(ppart)
+    _seen, _viol = set(), []
+    for _v in pv + b.violations():
+        if _v.key not in _seen:
+            _seen.add(_v.key)
+            _viol.append(_v)
+    return finish(PROP, 'exploration', _viol, pu, pe + b.errors, cov, passumed +
                   ["branch names are release/<major>.<minor> and master (every numeric-aware order agrees on them; "
                    "BranchName.cmp on other names is a proof-tier obligation)",
                    "a build commit is a commit carrying a tag build_<n>_<branch>_success (the default build detector)",
